@@ -859,3 +859,79 @@ def expand_single_defs(body, term, g, keep=(), depth=0):
                 return expand_single_defs(body, norm(ds[0][1], g), g, keep, depth + 1)
         return None
     return map_term(term, f)
+
+
+def relator_scan_shape(ctx, rule, g):
+    """fpgroups::cosets: scan / scan_inverse walk the word from `start` for at most `limit` letters and report the row reached and the
+    letters consumed at both exits; scan_both_ways = (head of the forward scan with the FULL budget len(w), tail of the backward scan
+    with the remaining budget len(w) - i, gap len(w) - i - j, the letter w[i] at which the forward scan stopped).  A forward budget
+    below len(w) turns 'traced completely but ended in the wrong row' (a coincidence / a contradiction) into a fake gap of 1."""
+    C = "fpgroups::cosets::"
+    sb = ctx.body(C + "scan_both_ways")
+    ctx.scan([sb, ctx.body(C + "scan"), ctx.body(C + "scan_inverse")])
+    table, w, start = (("param", i, sb.debug.get(i, "")) for i in (1, 2, 3))
+    unov = lambda t: map_term(t, lambda x: ("binop", x[1][1].replace("WithOverflow", ""), x[1][2], x[1][3])
+                              if x[0] == "field" and str(x[2]) == "0" and x[1][0] == "binop" and x[1][1].endswith("WithOverflow") else None)
+    r = unov(norm(sb.local_origin(0), g))
+    if not (r[0] == "agg" and r[1] == "tuple" and len(r[2]) == 4):
+        ctx.ob(rule, sb.name, "return", "violation", "scan_both_ways does not return a 4-tuple: " + show(r, 1)[:80])
+        return
+    n_ = ("call", "fpgroups::free_words::FreeWord::len", (w,))
+    s1 = ("call", C + "scan", (table, w, start, n_))
+    i_ = ("field", s1, "1")
+    s2 = ("call", C + "scan_inverse", (table, w, start, ("binop", "Sub", n_, i_)))
+    j_ = ("field", s2, "1")
+    head, tail, gap, c = r[2]
+    ctx.ob(rule, sb.name, "head", "ok" if head == ("field", s1, "0") else "violation",
+           "head = row reached by scan(table, w, start, w.len())" if head == ("field", s1, "0") else
+           "head is not scan(table, w, start, w.len()).0 (full budget): " + show(head, 1)[:90])
+    ctx.ob(rule, sb.name, "tail", "ok" if tail == ("field", s2, "0") else "violation",
+           "tail = row reached by scan_inverse with the remaining budget w.len() - i" if tail == ("field", s2, "0") else
+           "tail is not scan_inverse(table, w, start, w.len() - i).0: " + show(tail, 1)[:110])
+    gaps = (("binop", "Sub", ("binop", "Sub", n_, i_), j_), ("binop", "Sub", n_, ("binop", "Add", i_, j_)))
+    ctx.ob(rule, sb.name, "gap", "ok" if gap in gaps else "violation", "gap = w.len() - i - j" if gap in gaps else "gap is not w.len() - i - j: " + show(gap, 1)[:110])
+    okc = False
+    det = show(c, 1)[:60]
+    cds = [(None, c)] if c[0] != "local" else [(dbb, unov(strip(norm(d, g)))) for dbb, d in sb.all_defs_origins(c[1])]
+    for dbb, d in cds:
+        if is_call(d, "Index::index") and strip(d[2][0]) == w and strip(d[2][1]) == i_:
+            okc = True
+    # every definition that is not w[i] must be unreachable for i < n (the dummy for a complete forward scan)
+    for dbb, d in cds:
+        if not (is_call(d, "Index::index") and strip(d[2][0]) == w and strip(d[2][1]) == i_):
+            fa = [atom_norm(a, g) for a in sb.facts_at(dbb)] if dbb is not None else []
+            if not any(a[0] == "rel" and implies(a, ("rel", "Le", n_, i_)) for a in fa):
+                okc = False
+                det = "the connecting letter can be %s although the forward scan stopped inside the word" % show(d, 1)[:40]
+    ctx.ob(rule, sb.name, "letter", "ok" if okc else "violation", "the connecting letter is w[i] whenever the forward scan stopped inside the word" if okc else det)
+    # the two scans: both exits report (row reached, letters consumed)
+    for fn in ("scan", "scan_inverse"):
+        b = ctx.body(C + fn)
+        lim = ("param", 4, b.debug.get(4, ""))
+        st_ = ("param", 3, b.debug.get(3, ""))
+        gets = [(bi, [strip(norm(b.origin(x), g)) for x in t["args"]]) for bi, t in b.calls(exact=C + "CosetTable::get")]
+        if not gets:
+            raise AnchorMissing(C + fn + ": table.get")
+        cur = gets[0][1][1]
+        okcur = cur[0] == "local"
+        if okcur:
+            ds = [norm(d, g) for _, d in b.all_defs_origins(cur[1])]
+            okcur = len(ds) == 2 and any(strip(d) == st_ for d in ds) and any(contains(d, lambda y: is_call(y, "CosetTable::get")) for d in ds)
+        ctx.ob(rule, b.name, "row := start, then each defined image", "ok" if okcur else "violation",
+               "the walk starts at `start` and moves to each defined image" if okcur else "the row the step is applied to is not (start, then each table.get result)")
+        rets = [(bi, [strip(norm(b.origin(x), g)) for x in s["rv"]["ops"]]) for bi, si, s in b.assigns()
+                if s["place"]["l"] == 0 and not s["place"]["p"] and s["rv"]["k"] == "aggregate" and s["rv"].get("agg") == "tuple"]
+        ctx.floor("tuple returns of " + fn, len(rets), 2)
+        for bi, vals in rets:
+            fa = [atom_norm(x, g) for x in b.facts_at(bi)]
+            early = any(x[0] in ("variant", "notvariant") and is_call(x[1], "CosetTable::get") for x in fa) and \
+                any((x[0] == "variant" and x[2] == 0) or (x[0] == "notvariant" and 1 in x[2]) for x in fa if is_call(x[1], "CosetTable::get"))
+            ok0 = vals[0] == cur
+            if early:
+                rr = loop_range_of_payload(b, vals[1], g)
+                ok1 = rr is not None and rr[0] == ("int", 0) and strip(rr[1]) == lim and not rr[2]
+            else:
+                ok1 = vals[1] == lim
+            ctx.ob(rule, b.name, ("undefined-image exit" if early else "budget-used exit"), "ok" if ok0 and ok1 else "violation",
+                   "reports (row reached, %s)" % ("letters consumed so far" if early else "limit") if ok0 and ok1 else
+                   "the exit reports (%s, %s), not (row reached, %s)" % (show(vals[0], 1)[:30], show(vals[1], 1)[:30], "the loop's index in 0..limit" if early else "limit"), b.span_of(bi))
